@@ -16,6 +16,7 @@ PROPS = {
             _c02("TestC03Chain", "props", (2, 10), (3, 500)),
             _c02("TestC08", "props", (3, 12), (4, 700)),
             _c02("TestC07", "c07", (2, 15), (3, 700)),
+            _c02("TestC06Chain", "c06", (2, 6), (2, 300)),
             _c02("TestC15Chain", "c15", (2, 8), (3, 400)),
             _c02("TestC17", "c17", (2, 12), (2, 600)),
             _c02("TestC14", "c14", (2, 10), (2, 500)),
@@ -129,14 +130,17 @@ PROPS = {
         nt_floor=0.2,
     ),
     "C13": dict(
-        stages=[dict(test="TestC13Signing", quick=(16, 25), thorough=(16, 1500), timeout=dict(quick=900, thorough=3300))],
-        rule="TSS history (see C05) with fee_per_signer in {0, 10uband, 7uband, 3uband+2uatom}, fee limits enough/exact/one-less/zero/"
+        stages=[dict(test="TestC13Signing", quick=(16, 25), thorough=(16, 1500), timeout=dict(quick=900, thorough=3300)),
+                dict(test="TestC13Oracle", quick=(8, 30), thorough=(16, 2500), timeout=dict(quick=900, thorough=3300))],
+        rule="Oracle: 3 data sources with drawn fee vectors over 3 denoms (free, single, multi), scripts asking 1-4 sources incl. repeats, ask 1-3, fee "
+             "limit exact / one denom -1 / +1 / zero / big / first denom only / one denom dropped, a poor payer funded exactly, one short, or only for the "
+             "first k-1 sources; non-trivial = a request at a limit boundary or a balance running out midway. Signing: TSS history (see C05) with fee_per_signer in {0, 10uband, 7uband, 3uband+2uatom}, fee limits enough/exact/one-less/zero/"
              "one-denom-only, a poor requester; non-trivial = a request at an exact limit boundary or a payout after a retry; distinct = hash of case JSON",
         explanation="bank-balance accounting model: expected balance of every member, requester and the bandtss module account is updated "
                     "from the statement (escrow fee_per_signer x threshold on an accepted request, pay fee_per_signer to each assignee of the "
                     "successful current-group attempt, nothing on failure) and compared with the bank after every block; charged fee within "
                     "the caller's limit per denom; escrow >= outstanding obligations",
-        assumptions=["mint inflation off so no block rewards blur balances", "data-request fees (oracle side) are covered by the separate stage once added",
+        assumptions=["mint inflation off so no block rewards blur balances", "IBC-originated data requests are not generated",
                      "governance (free) requests and incoming-group signings are exercised under C18"],
         nt_floor=0.2,
     ),
@@ -177,6 +181,22 @@ PROPS = {
                     "active => total >= min, IsActive <=> active index <=> processed at end block, rejected ops change nothing",
         assumptions=["no packet is ever sent successfully (no signing group / IBC channel), so TotalFees stays 0",
                      "end-block deactivation for an unfunded fee payer is outside the statement and only counted"],
+        nt_floor=0.2,
+    ),
+    "C06": dict(
+        stages=[dict(test="TestC06Pure", pkg="c06", quick=(8, 25000), thorough=(16, 1200000), timeout=dict(quick=600, thorough=3400)),
+                dict(test="TestC06Chain", pkg="c06", quick=(16, 10), thorough=(16, 500), timeout=dict(quick=900, thorough=3400))],
+        rule="Pure: lists of 0-40 validator prices (powers 1/small/equal/dominant >25% and >50%/near 2^63, timestamps with ties, prices 0/1/2^64-1, all "
+             "statuses) with quorum power at total+{-1,0,1} and exact half-power crossings constructed. Chain: 3-7 validators bonded/unbonded/oracle-"
+             "active or not submitting prices with drawn timestamps/statuses, block times around the feed interval. Non-trivial = >=3 AVAILABLE entries "
+             "with a timestamp tie or a section boundary inside one entry's power, or a status comparison at/next to equality; distinct = hash of case JSON",
+        explanation="reference over big.Rat written from x/feeds/README.md and the statement (filter AVAILABLE, stable sort time desc/power desc, sections "
+                    "1/32,1/16,1/8,1/4 with multipliers 6,4,2,1.1,1 split across boundaries, lower weighted median; status rule on quorum/half): "
+                    "CalculatePrice == reference; price within [min,max] of fresh AVAILABLE inputs and one of them; metamorphic (scale powers, shift "
+                    "times, add zero-effect entry, permute distinct keys); on chain the Price store after each end block == reference applied to the "
+                    "prices the model considers fresh from bonded, oracle-active validators; 1 in 5 chain cases run a second replica",
+        assumptions=["equal (time, power) entries keep input order (README silent)", "quorum power = floor(fraction x bonded) as documented; rounding-down hits are counted",
+                     "current feeds and intervals are read from the chain (C07 decides them)"],
         nt_floor=0.2,
     ),
     "C07": dict(
@@ -256,12 +276,20 @@ PROPS = {
     "C09": dict(
         stages=[
             dict(test="TestC09Pure", quick=(8, 8000), thorough=(16, 400000), timeout=dict(quick=600, thorough=3000)),
+            dict(test="TestC09Chain", quick=(8, 40), thorough=(16, 2500), timeout=dict(quick=900, thorough=3300)),
+            dict(test="TestC09Signers", quick=(8, 25), thorough=(16, 1500), timeout=dict(quick=900, thorough=3300)),
         ],
         rule="case = (seed, nonce, chain id, weight vector 1..60 entries from 6 families, cnt 1..n, tries 1..5) drawn by "
-             "rapid; non-trivial = n>=4 and weights not all equal and cnt<n; distinct = 64-bit hash of the case JSON",
+             "rapid; non-trivial = n>=4 and weights not all equal and cnt<n. Chain: 1-8 validators (equal/small/dominant/random tokens, some never or late "
+             "activated), SamplingTryCount 1-5, random chain id, requests with ask 1..n+1 on the real app; same non-triviality on the eligible set. Signers: "
+             "TSS histories (see C05) where every assignment is compared; non-trivial = group >=4 with more available members than the threshold; "
+             "distinct = 64-bit hash of the case JSON",
         explanation="differential against an independent port of the sampling specification (own HMAC_DRBG(SHA-256), "
                     "big.Int cumulative-weight pick, removal without replacement, best-of-N by strict >, partial "
-                    "Fisher-Yates) plus validity (exact size, distinct, in range) and same-input determinism",
+                    "Fisher-Yates) plus validity (exact size, distinct, in range) and same-input determinism; on chain Request.RequestedValidators and every "
+                    "signing attempt's assigned members must equal the reference applied to the eligible set the model computes (bonded and oracle-active "
+                    "in the staking module's power order; active members with a queued nonce in id order), the rolling seed read from the store, the id "
+                    "and the chain id; too few eligible => rejected without state change",
         assumptions=["weights are non-zero and their total fits in uint64 (bonded validators have non-zero tokens)",
                      "HMAC-SHA256 of the Go standard library is correct"],
         nt_floor=0.2,
